@@ -55,12 +55,17 @@ TYPE_TO_JSON_TYPE = {
 }
 
 
+def _found_type(data: Any) -> str:
+    # bool is listed before int in TYPE_TO_JSON_TYPE
+    for cls, json_type in TYPE_TO_JSON_TYPE.items():
+        if isinstance(data, cls):
+            return str(json_type)
+    return data.__class__.__name__
+
+
 def bad_type(data: Any, *expected: type) -> ValidationError:
-    msgs = [
-        f"expected type {JsonType.from_type(tp)},"
-        f" found {JsonType.from_type(data.__class__)}"
-        for tp in expected
-    ]
+    found = _found_type(data)
+    msgs = [f"expected type {JsonType.from_type(tp)}, found {found}" for tp in expected]
     return ValidationError(msgs)
 
 
